@@ -207,7 +207,8 @@ def _first_text_diff(a, b):
 def fresh_outputs(jobs):
     """jobs: list of (spec, mode, opts) -> list of texts computed in a fresh interpreter"""
     payload = json.dumps(jobs)
-    env = dict(os.environ, PYTHONPATH=HERE + ":" + os.path.join(HERE, ".deps"), PYTHONHASHSEED="0")
+    env = dict(os.environ, PYTHONHASHSEED="0")
+    env["PYTHONPATH"] = os.pathsep.join([HERE, os.path.join(HERE, ".deps")] + [p for p in os.environ.get("PYTHONPATH", "").split(os.pathsep) if p])
     r = subprocess.run([sys.executable, "-W", "ignore", "-m", "props.c12"], input=payload, capture_output=True, text=True, cwd=HERE, env=env, timeout=300)
     if r.returncode != 0:
         raise RuntimeError("fresh interpreter failed: %s" % r.stderr[-500:])
@@ -285,6 +286,37 @@ def specs_for_printing(draw):
 @st.composite
 def cases(draw):
     schemas = [(draw(specs_for_printing()), draw(st.sampled_from(["sdl", "sdl", "code"]))) for _ in range(draw(st.integers(1, 2)))]
+    if draw(st.integers(0, 1)) == 0:
+        # a sibling schema: the same names, but every enum's internal values rotated among its members (code-built,
+        # where internal values exist) -- serialising one must not influence the other
+        sib = json.loads(json.dumps(schemas[0][0]))
+        rename = {}
+        for t in sib["types"].values():
+            if t["kind"] == "enum" and len(t["values"]) > 1:
+                old = {v["name"]: v["value"] for v in t["values"]}
+                vs = [v["value"] for v in t["values"]]
+                for v, x in zip(t["values"], vs[1:] + vs[:1]):
+                    v["value"] = x
+                if draw(st.integers(0, 2)):
+                    # ... and the defaults keep their *internal* value, i.e. now name another member
+                    for v in t["values"]:
+                        rename[[n for n, x in old.items() if x == v["value"]][0]] = v["name"]
+
+        def ren(x):
+            if isinstance(x, dict):
+                if set(x) == {"__enum__"}:
+                    return {"__enum__": rename.get(x["__enum__"], x["__enum__"])}
+                return {k: ren(v) for k, v in x.items()}
+            if isinstance(x, list):
+                return [ren(v) for v in x]
+            return x
+
+        for t in sib["types"].values():
+            for f in t.get("fields") or []:
+                for a in [f] + (f.get("args") or []):
+                    if "default" in a:
+                        a["default"] = ren(a["default"])
+        schemas = [(schemas[0][0], "code"), (sib, "code")]
     calls = [(draw(st.integers(0, len(schemas) - 1)), draw(st.integers(0, len(OPTION_SETS) - 1))) for _ in range(draw(st.integers(2, 7)))]
     return {"schemas": schemas, "calls": calls, "fresh": draw(st.integers(0, 3)) == 0}
 
